@@ -19,7 +19,6 @@ import (
 	"verif/internal/ev"
 )
 
-
 // withWatchdog runs f; false when it has not returned within d (the goroutine is abandoned).
 func withWatchdog(d time.Duration, f func()) (ok bool, pan interface{}) {
 	ch := make(chan interface{}, 1)
